@@ -180,39 +180,34 @@ def pattern_value_pairing(F, rep, fns):
         if it["k"] != "fn" or not it["mod"].endswith("patterns") or not it.get("body"):
             continue
         sc = Q.Scope(fns).add_fn(it)
-        k = 0
-        for lp in find(it["body"], "for"):
-            zips = [m for m in find(lp[2], "mcall") if m[2] == "zip" and m[4]]
-            if not zips and path_of(Q.strip(lp[2])):
-                zips = [m for m in find(sc.expand(lp[2], 1), "mcall") if m[2] == "zip" and m[4]]      # `let pairs = a.iter().zip(b); for .. in pairs`
-            for z in zips:
-                ops = [z[1], z[4][0]]
-                n += 1
-                k += 1
-                bad = []
-                for o in ops:
-                    for m in find(o, "mcall"):
-                        if m[2] in REORDER:
-                            bad.append(m[2])
-                txt = render(z)
-                # the instance is named by the fields its two operands read (`prefix/-`, `patterns/elements`): no local, no function name
-                roles = [".".join(recv_fields(o)) or "-" for o in ops]
-                key = "zip:%s/%s" % (roles[0], roles[1])
-                rep.check(not bad, "C16-R7", key if not bad else key + ":" + ",".join(sorted(set(bad))),
-                          "%s pairs patterns with values through `%s`: an operand is re-ordered or truncated (%s), so sub-pattern i no longer meets part i of the matched value" % (it["name"], txt[:90], sorted(set(bad))),
-                          "%s (mech_interpreter.lib)" % it["name"], sample={"fn": it["name"], "zip": txt[:120]})
-                # suffix pairing: values[START..] with START = values.len() - <suffix>.len()
-                is_suffix = [any(f[2] == "suffix" for f in find(o, "field")) for o in ops]
-                if any(is_suffix):
-                    other = ops[1] if is_suffix[0] else ops[0]
-                    rng = [x for x in find(other, "range")]
-                    ok = False
-                    if rng and rng[0][1] is not None and rng[0][2] is None:
-                        # the start expression with its named parts spelled out, level by level (`start` / `n - k` / `values.len() - x.suffix.len()`)
-                        forms = [re.sub(r"[\s()]", "", render(sc.expand(rng[0][1], d))) for d in range(0, 4)]
-                        ok = any(re.match(r"^\w+\.len-[\w.]*suffix\.len$", f) for f in forms)
-                    rep.check(ok, "C16-R7", key + ":suffix-anchored-at-len-minus-suffix",
-                              "%s: the suffix patterns are not paired with the slice `values[len - suffix.len()..]` (`%s`)" % (it["name"], render(other)[:60]), "%s (mech_interpreter.lib)" % it["name"])
+        zips = [m for m in find(it["body"], "mcall") if m[2] == "zip" and m[4]]      # in a `for` header, a named local, or an adaptor chain alike
+        for z in zips:
+            ops = [z[1], z[4][0]]
+            n += 1
+            bad = []
+            for o in ops:
+                for m in find(o, "mcall"):
+                    if m[2] in REORDER:
+                        bad.append(m[2])
+            txt = render(z)
+            # the instance is named by the fields its two operands read (`prefix/-`, `patterns/elements`): no local, no function name
+            roles = [".".join(recv_fields(o)) or "-" for o in ops]
+            key = "zip:%s/%s" % (roles[0], roles[1])
+            rep.check(not bad, "C16-R7", key if not bad else key + ":" + ",".join(sorted(set(bad))),
+                      "%s pairs patterns with values through `%s`: an operand is re-ordered or truncated (%s), so sub-pattern i no longer meets part i of the matched value" % (it["name"], txt[:90], sorted(set(bad))),
+                      "%s (mech_interpreter.lib)" % it["name"], sample={"fn": it["name"], "zip": txt[:120]})
+            # suffix pairing: values[START..] with START = values.len() - <suffix>.len()
+            is_suffix = ["suffix" in recv_fields(o) for o in ops]
+            if any(is_suffix):
+                other = ops[1] if is_suffix[0] else ops[0]
+                rng = [x for x in find(other, "range")]
+                ok = False
+                if rng and rng[0][1] is not None and rng[0][2] is None:
+                    # the start expression with its named parts spelled out, level by level (`start` / `n - k` / `values.len() - x.suffix.len()`)
+                    forms = [re.sub(r"[\s()]", "", render(sc.expand(rng[0][1], d))) for d in range(0, 4)]
+                    ok = any(re.match(r"^\w+\.len-[\w.]*suffix\.len$", f) for f in forms)
+                rep.check(ok, "C16-R7", key + ":suffix-anchored-at-len-minus-suffix",
+                          "%s: the suffix patterns are not paired with the slice `values[len - suffix.len()..]` (`%s`)" % (it["name"], render(other)[:60]), "%s (mech_interpreter.lib)" % it["name"])
     rep.floor("C16-R7", "pattern/value zips in the matcher", n, 2)
 
 
@@ -260,7 +255,7 @@ def trial_env_fresh(F, rep, fns, rule, names, floor):
                                     continue
                                 n += 1
                                 inside = b.owner is not None and any(Q.contains(t_, b.owner) for t_ in region)
-                                rep.check(inside, rule, "%s:%s(&mut env)" % (name, m) + ("" if inside else ":reused-across-candidates"),
+                                rep.check(inside, rule, "%s(&mut env)" % m + ("" if inside else ":reused-across-candidates"),
                                           "%s calls %s(.., &mut %s) inside a loop over candidates, but `%s` is declared outside that loop: bindings left behind by a match that fails part-way are still there when "
                                           "the next candidate is matched and reject (or wrongly constrain) it" % (name, m, b.name, b.name), "%s (mech_interpreter.lib)" % name,
                                           sample={"fn": name, "matcher": m, "env": b.name})
